@@ -366,6 +366,19 @@ pub struct ReplayFile {
     pub seed: u64,
     pub tier: Tier,
     pub case: Value,
+    /// Build configuration of the worker that found it: "checked" (debug assertions and overflow
+    /// checks on) or "nda" (neither).  A replay runs under the same one.
+    #[serde(default)]
+    pub profile: String,
+}
+
+/// The build configuration of this binary.
+pub fn build_profile() -> &'static str {
+    if cfg!(debug_assertions) {
+        "checked"
+    } else {
+        "nda"
+    }
 }
 
 pub fn replay_dir() -> PathBuf {
@@ -383,6 +396,7 @@ fn write_replay(ctx: &Ctx, group: &str, fail: &Fail, case: &Value) -> String {
         seed: ctx.seed,
         tier: ctx.tier,
         case: case.clone(),
+        profile: build_profile().to_string(),
     };
     let h = hash_value(&(group, case));
     let path = dir.join(format!("{}-{}-{:016x}.json", ctx.id, ctx.seed, h));
@@ -668,10 +682,13 @@ pub fn run_regress(ctx: &Ctx, rep: &mut Report, replay: fn(&Ctx, &str, &Value) -
                 if ctx.is_known(&fail.sig) {
                     *rep.excluded_known.entry(fail.sig.clone()).or_insert(0) += 1;
                 } else if !rep.found.iter().any(|f| f.sig == fail.sig) {
+                    // A fresh replay file (it records the build configuration that failed); the
+                    // corpus file itself when this is the ordinary build.
+                    let replay = if build_profile() == "checked" { file.display().to_string() } else { write_replay(ctx, &rf.group, &fail, &rf.case) };
                     rep.found.push(Found {
                         sig: fail.sig,
                         msg: fail.msg,
-                        replay: file.display().to_string(),
+                        replay,
                         known: false,
                     });
                 }
